@@ -85,6 +85,11 @@ from . import class_family  # noqa: E402
 CHECKS['C08'] = {'run': class_family.run_c08, 'signatures': {}, 'search': None}
 
 
+from . import elem_family  # noqa: E402
+
+CHECKS['C20'] = {'run': elem_family.run_c20, 'signatures': {}, 'search': None}
+
+
 def run_check(pid, tier, seed):
     chk = CHECKS[pid]
     return core.decide(pid, tier, seed, chk['run'], signatures=chk.get('signatures'),
@@ -113,4 +118,4 @@ def replay(payload):
     return handler(pid, fl)
 
 
-REPLAYERS = {'classify': class_family.replay, 'classify-bytes': class_family.replay, 'access': access_family.replay, 'collection': coll_family.replay, 'collection-perm': coll_family.replay, 'validate': coll_family.replay}
+REPLAYERS = {'elements': elem_family.replay, 'classify': class_family.replay, 'classify-bytes': class_family.replay, 'access': access_family.replay, 'collection': coll_family.replay, 'collection-perm': coll_family.replay, 'validate': coll_family.replay}
